@@ -104,6 +104,9 @@ func runMatrix(root string, shapes []*shape) {
 	tp := time.Now()
 	phaseNoUsers(cl, m, shapes, singles)
 	r.Set("no_users_phase_s", time.Since(tp).Seconds())
+	if strings.HasPrefix(r.ReplayCase(), "nousers/") {
+		return
+	}
 
 	// ---- create the user matrix through the client API
 	users := matrixUsers()
@@ -333,7 +336,7 @@ func runMatrix(root string, shapes []*shape) {
 	}
 
 	// ---- wrong passwords: one bcrypt verification each
-	nWrong := r.Pick(24, 320)
+	nWrong := r.Pick(24, 240)
 	wrng := r.Rand("wrongpw")
 	for i := 0; i < nWrong; i++ {
 		i := i
